@@ -76,6 +76,20 @@ def _class_shape(ctx: Ctx, c: Collector, qn: str) -> None:
             if m == "__hash__" and "__eq__" not in own and missing and not whole:
                 pr.append(f"hand-written __hash__ ignores {', '.join(missing)} (only a performance matter while == is field equality)")
                 pr.pop()
+    # ... and the generated == must see every field as well: `field(compare=False)` takes a field out of == and hash
+    if "__eq__" not in own:
+        for st in ci.node.body:
+            if isinstance(st, ast.AnnAssign) and isinstance(st.target, ast.Name) and isinstance(st.value, ast.Call) \
+                    and ast.unparse(st.value.func).rsplit(".", 1)[-1] == "field":
+                for kwd in st.value.keywords:
+                    if kwd.arg == "compare" and isinstance(kwd.value, ast.Constant) and kwd.value.value is False:
+                        pr.append(f"the field {st.target.id} is declared with field(compare=False): the generated == and hash ignore it, so values that differ only there compare equal "
+                                  "(for delays: equal tiers, different cutoff -- one of them is strictly smaller), and ==, <=, >= and update_min treat different delays as the same")
+        for d in ci.decorators:
+            if isinstance(d, ast.Call) and ast.unparse(d.func).rsplit(".", 1)[-1] == "dataclass":
+                for kwd in d.keywords:
+                    if kwd.arg == "eq" and isinstance(kwd.value, ast.Constant) and kwd.value.value is False:
+                        pr.append("@dataclass(eq=False): == is identity, so two equal times / delays are neither ==, nor <= , nor >=")
     c.add("class", qn, "total_ordering+frozen dataclass", VIOLATED if pr else DISCHARGED, "; ".join(pr), f"{ci.module.relpath}:{ci.node.lineno}")
 
 
